@@ -564,8 +564,8 @@ def build(repo: str) -> Dict[str, Any]:
             for note in x.get("notes", []):
                 if note.startswith("textGuard:") and note != "textGuard:always":
                     pass        # element always written, text conditional: the row's guard stays `always`
-            if member == "kind" and cls == "Submodel":
-                dflt = "tok:" + enums["MODELLING_KIND"]["INSTANCE"]
+            if (cls, attr) in meta.SPEC_DEFAULTS and dflt == "none":
+                dflt = "tok:" + meta.SPEC_DEFAULTS[(cls, attr)]
             rows_out.append({
                 # there is no stripped XML writer; the notional one strips what the stripped reader ignores
                 "member": member, "attr": attr, "guard": guard, "encStrip": bool(rr and rr["decStrip"]),
